@@ -194,6 +194,11 @@ def make_dataset(rng, feats, temporal=False):
         m.flat[0] = np.nan
     if 'inf' in feats:
         m.flat[-1] = -np.inf
+    store = int(rng.integers(6))
+    if store == 0:
+        m = m.astype('>f8')                 # recordings read from a big-endian file (np.fromfile / memmap)
+    elif store == 1:
+        m = np.asfortranarray(m)            # column-major storage
     cont = gen.pick(rng, gen.CONTAINERS)
     lab = ['kål', 'b', 'α'] if 'unicode' in feats else ['x', 'y', 'z']
     od = {'cond': gen.wrap([lab[i % 3] for i in range(n_obs)], cont), 'run': gen.wrap([i // 2 for i in range(n_obs)], cont)}
